@@ -146,15 +146,64 @@ class Finished:
 
 
 def dir_content(path):
+    """every entry below path: regular files with content and permission bits, symbolic links with their text,
+    directories (also empty ones) with permission bits"""
     out = {}
     for d, ds, fs in os.walk(path):
-        for f in fs:
+        for f in fs + ds:
             p = os.path.join(d, f)
+            rel = os.path.relpath(p, path)
             try:
-                out[os.path.relpath(p, path)] = open(p, 'rb').read()
+                st = os.lstat(p)
+                if os.path.islink(p):
+                    out[rel] = ('link', os.readlink(p))
+                elif os.path.isdir(p):
+                    out[rel] = ('dir', st.st_mode & 0o777)
+                elif f in ('out.txt', 'residue.txt', 'partial.txt'):
+                    out[rel] = open(p, 'rb').read()
+                else:
+                    out[rel] = ('file', st.st_mode & 0o777, open(p, 'rb').read())
             except OSError:
-                out[os.path.relpath(p, path)] = None
+                out[rel] = None
     return out
+
+
+HOSTILE_NAMES = ['sp ace', 'uml\u00e4ut-\u2713', '$(x);`y`\'"q', '-dash', 'n' * 120, 'dot.', '.hidden']
+
+
+def hostile_tree(ws, bits):
+    """a package result with everything the statement of C08 lists (bits select the features)"""
+    if bits & 1:
+        os.makedirs(os.path.join(ws, 'empty-dir'), exist_ok=True)
+        os.makedirs(os.path.join(ws, 'deep', 'er', 'empty'), exist_ok=True)
+    if bits & 2:
+        for n in HOSTILE_NAMES:
+            with open(os.path.join(ws, n), 'w') as f:
+                f.write('content of ' + n)
+        os.makedirs(os.path.join(ws, 'd ' + HOSTILE_NAMES[1]), exist_ok=True)
+        with open(os.path.join(ws, 'd ' + HOSTILE_NAMES[1], HOSTILE_NAMES[2]), 'w') as f:
+            f.write('nested')
+    if bits & 4:
+        os.symlink('out.txt', os.path.join(ws, 'rel-link'))
+        os.symlink('/nonexistent/abs', os.path.join(ws, 'abs-dangling-link'))
+        os.symlink('../../outside', os.path.join(ws, 'up-link'))
+        os.symlink('.', os.path.join(ws, 'dir-link'))
+    if bits & 8:
+        with open(os.path.join(ws, 'hl-a'), 'w') as f:
+            f.write('hard linked')
+        os.link(os.path.join(ws, 'hl-a'), os.path.join(ws, 'hl-b'))
+    if bits & 16:
+        for n, m in (('exec', 0o755), ('readonly', 0o444), ('private', 0o600), ('wide', 0o666)):
+            with open(os.path.join(ws, n), 'w') as f:
+                f.write(n)
+            os.chmod(os.path.join(ws, n), m)
+        os.makedirs(os.path.join(ws, 'dir700'), exist_ok=True)
+        os.chmod(os.path.join(ws, 'dir700'), 0o700)
+    if bits & 32:
+        with open(os.path.join(ws, 'empty-file'), 'w'):
+            pass
+        with open(os.path.join(ws, 'binary'), 'wb') as f:
+            f.write(bytes(range(256)) * 40)
 
 
 def read_out(path):
@@ -201,6 +250,8 @@ async def fake_run(self, args, cwd, stdout=None, stderr=None, check=False, **kw)
         f.write('\n'.join(sorted(old)))
     with open(os.path.join(ws, 'out.txt'), 'w') as f:
         f.write(h.hexdigest())
+    if getattr(w, 'hostile', 0) and key == 'lib/dist':
+        hostile_tree(ws, w.hostile)
     if spec.envFile:
         with open(spec.envFile, 'w') as f:       # the real script prolog dumps its environment there
             f.write(repr(sorted(spec.env.items())))
@@ -281,6 +332,14 @@ def install():
             World.cur.cooked.add((packageStep.getPackage().getName(), packageStep.getVariantId().hex()))
         return orig_dl(self, packageStep, *a, **k)
     BB.LocalBuilder._downloadPackage = dl
+    import bob.archive as BAR
+    orig_odf = BAR.LocalArchive._openDownloadFile
+
+    def odf(self, buildId, suffix):
+        if World.cur is not None:
+            World.cur.opened.append(self._getPath(buildId, suffix)[1])
+        return orig_odf(self, buildId, suffix)
+    BAR.LocalArchive._openDownloadFile = odf
     import bob.audit as BAU
     orig_asave = BAU.Audit.save
 
@@ -353,6 +412,8 @@ def invoke(w, st, release, extra=()):
     w.crashed = False
     w.by_vid = {}
     w.cooked = set()
+    w.hostile = st.get('hostile', 0)
+    w.opened = []
     os.chdir(w.root)
     write_project(w.root, st)
     argv = ['app'] + (['solo'] if st.get('solo') else []) + defines(st) + list(extra)
@@ -387,6 +448,9 @@ def invoke(w, st, release, extra=()):
         outcome = 'error'
     except SystemExit:
         outcome = 'error'
+    except Exception as e:
+        outcome = 'crash'             # an internal error (traceback) of Bob
+        w.crash_info = type(e).__name__
     finally:
         _steps[:] = []
         close_handles(outcome == 'killed')
@@ -674,6 +738,136 @@ def archive_history(e1, fresh2, d2, u2, e2, d3, fault, d4):
         os.chdir(cwd)
 
 
+def artifacts(arch):
+    out = []
+    for d, ds, fs in os.walk(arch):
+        for f in fs:
+            if f.endswith('.tgz'):
+                out.append(os.path.join(d, f))
+    return sorted(out)
+
+
+def pack_history(hostile, kind, idx, pos):
+    """C08: workspace A uploads (lib's package result is a hostile tree); optionally ONE artifact is damaged (kind 1: truncated
+    to pos bytes, 2: byte pos inverted, 3: replaced by another artifact of the archive, 4: replaced by garbage); workspace B at
+    another location builds with --download=deps"""
+    install()
+    cwd = os.getcwd()
+    try:
+        arch = fresh('archive')
+        st = initial()
+        st['archive'] = arch
+        st['hostile'] = hostile
+        wa = World(fresh('projA'))
+        o, outs, res = invoke(wa, st, False, ['--download=no', '--upload'])
+        if o != 'ok':
+            raise V.HarnessGap('populating build failed')
+        arts = artifacts(arch)
+        if len(arts) < 3:
+            raise V.HarnessGap('expected at least 3 artifacts')
+        damaged = None
+        if kind:
+            # the artifacts a downloader of this project state actually fetches (an intact trial run)
+            w0 = World(fresh('projB0'))
+            o, outs, res = invoke(w0, st, False, ['--download=deps'])
+            needed = sorted(set(f for f in w0.opened if f.endswith('.tgz') and os.path.exists(f)))
+            if o != 'ok' or not needed:
+                raise V.HarnessGap('trial download failed')
+            damaged = needed[idx % len(needed)]
+            data = open(damaged, 'rb').read()
+            if kind == 1:
+                new = data[:pos % len(data)]
+            elif kind == 2:
+                q = pos % len(data)
+                new = data[:q] + bytes([data[q] ^ 0xff]) + data[q + 1:]
+            elif kind == 3:
+                # (a complete artifact of ANOTHER build-id under this name is accepted by Bob: the audit trail inside is
+                # consistent with its content and its build-id is not compared -- observation, not part of the plan)
+                new = open([a for a in arts if a != damaged][0], 'rb').read()
+            else:
+                new = b'this is not a gzip stream' * 10
+            os.chmod(damaged, 0o644)
+            with open(damaged, 'wb') as f:
+                f.write(new)
+        w = World(fresh('projB'))
+        o, outs, res = invoke(w, st, False, ['--download=deps'])
+        if o == 'killed':
+            raise V.HarnessGap('killed')
+        if o in ('error', 'crash'):
+            if not kind:
+                return False, 'download-of-intact-artifacts-failed'
+            # rejected (a crash with a traceback -- e.g. zlib.error -- is ungraceful but not "silently used").  Whatever was
+            # half extracted must not count as a result later on: a purely local build in the same workspace is right
+            how = 'rejected' if o == 'error' else 'rejected-by-internal-error'
+            o, outs, res = invoke(w, st, False, ['--download=no'])
+            if o != 'ok':
+                return False, 'workspace-unusable-after-rejected-download'
+            want = clean_build({k: v for k, v in st.items() if k != 'archive'}, False)
+            if outs.get('app') != want['app']:
+                return False, 'remains-of-damaged-artifact-were-used'
+            for key in w.cooked:
+                if w.by_vid.get(key) != clean_build.last.by_vid.get(key):
+                    return False, 'remains-of-damaged-artifact-were-used'
+            return True, how
+        want = clean_build({k: v for k, v in st.items() if k != 'archive'}, False)
+        ref = clean_build.last.by_vid
+        if outs.get('app') != want['app']:
+            return False, 'root-result-differs'
+        for key in w.cooked:
+            if key not in ref:
+                raise V.HarnessGap('package variant unknown to the local build')
+            if w.by_vid.get(key) != ref[key]:
+                return False, 'extracted-tree-differs-from-packed-tree' if not kind else 'damaged-artifact-was-used'
+        if not kind:
+            if any(k.startswith('lib/') or k.startswith('mid/') for k in w.execs if not k.endswith('/src')):
+                return False, 'intact-artifact-not-used'
+            # the audit trail travels unchanged
+            import glob as _glob
+            import gzip as _gzip
+            ga = [_gzip.decompress(open(a, 'rb').read()) for a in _glob.glob(os.path.join(wa.root, 'dev', 'dist', '*', '*', 'audit.json.gz'))]
+            gb = [_gzip.decompress(open(a, 'rb').read()) for a in _glob.glob(os.path.join(w.root, 'dev', 'dist', '*', '*', 'audit.json.gz'))
+                  if '/dist/app/' not in a]
+            if not gb:
+                raise V.HarnessGap('no downloaded audit trail found')
+            for x in gb:
+                if x not in ga:
+                    return False, 'audit-trail-changed-in-transit'
+        return True, 'ok'
+    finally:
+        os.chdir(cwd)
+
+
+def check_c08_tree(hostile: int) -> bool:
+    """
+    pre: 0 <= hostile < 64
+    post: _
+    """
+    V.enter()
+    h = V.concretize(hostile, 64)
+    with V.fast():
+        ok, fact = pack_history(h, 0, 0, 0)
+    return V.verdict(ok, fact)
+
+
+def check_c08_damage(kind: int, idx: int, pos: int) -> bool:
+    """
+    pre: 1 <= kind <= 4
+    pre: 0 <= idx < 2
+    pre: 0 <= pos < V.SHARD[1]
+    pre: kind == V.SHARD[0]
+    pre: kind <= 2 or pos == 0
+    pre: V.SHARD[2] < 0 or idx == V.SHARD[2]
+    post: _
+    """
+    V.enter()
+    k = V.SHARD[0]
+    i = V.concretize(idx, 2)
+    p = V.concretize(pos, V.SHARD[1]) * V.SHARD[4]
+    with V.fast():
+        ok, fact = pack_history(V.SHARD[3], k, i, p)
+    return V.verdict(ok, fact)
+
+
 def check_c07(e1: int, fresh2: bool, d2: int, u2: bool, again: bool, d3: int, fault: int, d4: int) -> bool:
     """
     pre: 0 <= e1 < EDITS
@@ -710,4 +904,16 @@ def PLAN(tier):
     P.append(dict(fn='check_c06', shard=[0], timeout=600))
     for e in range(EDITS):
         P.append(dict(fn='check_c07', shard=[e, not q], timeout=900 if q else 3000))
+    P.append(dict(fn='check_c08_tree', shard=[0], timeout=900))
+    # artifacts are 1.7 - 3 kB (plain project) / up to 12 kB (hostile tree): shard = [kind, positions, artifact, tree, stride];
+    # thorough: every truncation length and every byte position of the plain artifacts
+    for k in (1, 2):
+        for i in range(2):
+            if q:
+                P.append(dict(fn='check_c08_damage', shard=[k, 100, i, 0, 31], timeout=900))
+            else:
+                P.append(dict(fn='check_c08_damage', shard=[k, 3000, i, 0, 1], timeout=3000))
+                P.append(dict(fn='check_c08_damage', shard=[k, 400, i, 63, 31], timeout=3000))
+    P.append(dict(fn='check_c08_damage', shard=[4, 1, -1, 0, 1], timeout=600))
+    P.append(dict(fn='check_c08_damage', shard=[4, 1, -1, 63, 1], timeout=600))
     return P
